@@ -8,6 +8,8 @@
    the table from Go and runs the case again. *)
 From DepsDev Require Import Lib.Base Lib.Sx Semver.Version Semver.Maven Semver.Gem Semver.Pep440 Semver.Compare
      Semver.Token Semver.Span Semver.Interval Semver.Set Semver.Constraint Extract.CasesSemver.
+(* the boolean side conditions of the _partial theorems (only their definitions are used here) *)
+From DepsDev Require Semver.Set_proofs Semver.Inter_proofs.
 Local Open Scope Z_scope.
 
 (* ---------------------------------------------------------------- the need code *)
@@ -309,6 +311,25 @@ Fixpoint disj_events (tbl : table) (sys : system) (alts : list sx) : res (list s
   | _ :: _ => Panic PExplicit
   end.
 
+(* ---------------------------------------------------------------- proved regions
+   The side conditions of C09_union_partial / C09_inter_partial evaluated on the given sets, so
+   that the driver can count how much of the evidence lies inside the proved region and treat
+   an oracle hit inside it as a contradiction of a theorem. *)
+Definition c09_sys_b (S : system) : bool := match S with SDefault | SNPM | SCargo | SGo => true | _ => false end.
+
+Definition union_region (a b : set) : bool :=
+  let S := set_sys a in
+  c09_sys_b S && Set_proofs.c09_dom_b S (set_span a ++ set_span b)
+  && negb (match set_span a with [] => true | _ => false end) && negb (match set_span b with [] => true | _ => false end).
+
+Definition inter_region (a b : set) : bool :=
+  let S := set_sys a in
+  c09_sys_b S &&
+  match set_span a, set_span b with
+  | [s], [t] => Inter_proofs.good_span_b S s && Inter_proofs.good_span_b S t && Inter_proofs.no_point_contact_b S s t
+  | _, _ => false
+  end.
+
 Definition k_setop_d : bytes := [115;101;116;111;112;95;100]%N.
 Definition k_setrt_d : bytes := [115;101;116;114;116;95;100]%N.
 Definition k_setdiag_d : bytes := [115;101;116;100;105;97;103;95;100]%N.
@@ -524,7 +545,9 @@ Definition run_Constraint (kind : bytes) (a : sx) : option sx :=
               | Some sa, Some sb =>
                   sx_out (eu <- union_events sa sb;; ei <- inter_events sa sb;;
                           eu' <- union_events sb sa;; ei' <- inter_events sb sa;;
-                          Ok (SL [SB sym_ok; SL eu; SL ei; SL eu'; SL ei']))
+                          Ok (SL [SB sym_ok; SL eu; SL ei; SL eu'; SL ei';
+                                  sx_bool (union_region sa sb && union_region sb sa);
+                                  sx_bool (inter_region sa sb && inter_region sb sa)]))
               | _, _ => badcase
               end
           | _ => badcase end)
